@@ -236,9 +236,9 @@ pub fn all() -> Vec<CheckDef> {
             id: "C18",
             run: c18::run,
             replay: c18::replay,
-            rule: "(b) bursts: 10 conflict kinds (two registrations / two renames for one nick, simultaneous first joins, JOINs racing for the last +l slot, MODE vs JOIN, KICK vs PRIVMSG, PRIVMSG vs NICK, KILL vs activity, last PART vs JOIN, INVITE vs JOIN) of 3-7 commands over 2-4 connections, written without waiting in a generated order and executed under a generated yield schedule at the H2 points (process_nick, authenticate, privmsg), with optional server password (Argon2 await); oracle = outcome (per-connection reply sequences, per (sender,receiver) relay sequences, final probe digest from every viewpoint, closes) equals that of SOME sequential order of the same commands (all interleavings respecting per-connection order, <= 720) on a fresh server, plus one winner per nick, one founder, members <= limit, every live connection answers PING; (a) pipelines: 2-6 connections each send 5-30 commands each followed by PING k in one or many writes; oracle = PONG k in order, every reply inside its command's segment, relays of one sender arrive in order; non-trivial = burst with >= 2 commands where a yield was taken (or no schedule) / any pipeline; distinct by (kind, yields taken, write order)",
+            rule: "(b) bursts: 16 conflict kinds (two registrations / two renames for one nick, simultaneous first joins, JOINs racing for the last +l slot, MODE vs JOIN, KICK vs PRIVMSG, PRIVMSG vs NICK, KILL vs activity, last PART vs JOIN, INVITE vs JOIN, TOPIC vs KICK/de-rank, one message to four channels vs JOIN/PART of the same list, readers (WHO/WHOIS) vs writers, KICK vs the victim leaving, KILL vs a take-over of the nick, and random pairs of handlers from a 34-shape vocabulary) of 2-8 commands over 2-4 connections, a third of them behind a slow writer (OPER), written without waiting in a generated order and executed under a generated yield schedule at the H2 points (process_nick, authenticate, privmsg), with optional server password (Argon2 await); oracle = outcome (per-connection reply sequences, per (sender,receiver) relay sequences, final probe digest from every viewpoint, closes) equals that of SOME sequential order of the same commands (all interleavings respecting per-connection order, <= 720) on a fresh server, plus one winner per nick, one founder, members <= limit, every live connection answers PING; (a) pipelines: 2-6 connections each send 5-30 commands each followed by PING k in one or many writes; oracle = PONG k in order, every reply inside its command's segment, relays of one sender arrive in order; (c) bursts_parallel: the same bursts on a multi-thread runtime (2-8 workers, real time), outcome compared with sequential replays on the deterministic engine, stall = runtime idle with an unanswered PING; (d) slow_reader: a client on 20-200 channels pipelines 5-44 long-reply commands without reading (socket buffer 8-64 KB) - the others must still be answered, afterwards it gets every reply complete and in order; non-trivial = burst with >= 2 commands where a yield was taken (or no schedule) / any pipeline; distinct by (kind, yields taken, write order)",
             level: "exploration",
-            assumptions: &["SIM single-threaded runtime: interleavings arise from write order, select! seed and the yields injected at the three H2 schedule points; preemption inside synchronous stretches and true parallelism (multi-thread runtime) are not explored", "linearizability is judged against sequential executions of the same server code (differential), so a defect that is also present sequentially is left to the other properties"],
+            assumptions: &["SIM single-threaded runtime: interleavings arise from write order, select! seed and the yields injected at the three H2 schedule points; true parallelism is explored only by sampling (part bursts_parallel: real time, schedules not replayable; an expired wait is inconclusive unless the runtime is idle)", "linearizability is judged against sequential executions of the same server code (differential), so a defect that is also present sequentially is left to the other properties"],
         },
         CheckDef {
             id: "C19",
@@ -276,7 +276,7 @@ pub fn all() -> Vec<CheckDef> {
             id: "C20",
             run: c20::run,
             replay: c20::replay,
-            rule: "validation: TOML files generated structurally over the documented fields (each valid / absent / invalid value or type: name without dot, bad hashes, invalid user/operator/channel names, over-long nick, missing mode flags, lone TLS file) x CLI vectors (-n -N -p -l -C -K) against a reference validator - MainConfig::new(Cli::try_parse_from) is Ok iff valid, effective values follow the CLI; hash_roundtrip: password pairs at edit distance <= 1 (ASCII, multi-byte, empty, long) - verify(p', hash(p)) iff p' = p and hash passes validate_password_hash; documented_keys: every leaf key of config-example.toml mutated in turn must change the parsed MainConfig (exhaustive); settings_govern: valid generated configs loaded through MainConfig::new and served in SIM - password right/wrong/none => 001 vs 464+close, welcome burst shows name/network/MOTD/CHANLIMIT, 221 = default_user_modes, 405 at max_joins; binary: the real binary exits non-zero on invalid configs, keeps serving on valid ones, `-g -P p` prints hash(p); non-trivial = config with >= 1 invalid field or CLI override / near-duplicate password pair / each key; distinct by the set of invalid fields and overrides",
+            rule: "validation: TOML files generated structurally over the documented fields (each valid / absent / invalid value or type: name without dot, bad hashes, invalid user/operator/channel names, over-long nick, missing mode flags, lone TLS file) x CLI vectors (-n -N -p -l -C -K) against a reference validator - MainConfig::new(Cli::try_parse_from) is Ok iff valid, effective values follow the CLI; hash_roundtrip: password pairs at edit distance <= 1 (ASCII, multi-byte, empty, long) - verify(p', hash(p)) iff p' = p and hash passes validate_password_hash; documented_keys: every leaf key of config-example.toml mutated in turn must change the parsed MainConfig (exhaustive); settings_govern: valid generated configs loaded through MainConfig::new and served in SIM - password right/wrong/none => 001 vs 464+close, welcome burst shows name/network/MOTD/CHANLIMIT, 221 = default_user_modes, 405 at max_joins (single JOINs and a list crossing the quota), max_connections (full, refused, freed slot re-used); toml_sessions: generated configurations rich in [[channels]] (overlapping rank lists, key, limit 0-3, masks, topic), [[operators]] with masks, [[users]] with password/mask, quota and default user modes are written as TOML text, must load to exactly the structure they spell out (differential against direct construction) and a model-based session (JOIN, OPER, contended registrations, LIST, TOPIC, PRIVMSG, probes) runs on the server built from the text; binary: the real binary exits non-zero on invalid configs, keeps serving on valid ones, `-g -P p` prints hash(p); non-trivial = config with >= 1 invalid field or CLI override / near-duplicate password pair / each key; distinct by the set of invalid fields and overrides",
             level: "exploration",
             assumptions: &["reference validator (c20.rs gen_config) encodes the validation rules named in the statement and config-example.toml", "TLS on/off transcript equality is NOT covered (would need a second feature build and loopback TCP); log output is not checked", "binary part is skipped when /verif/.build/repo-bin is missing; a bind failure of a valid config is not judged"],
         },
